@@ -449,7 +449,9 @@ def guarded_by(res, opts):
     if blocks:
         body = blocks[0].body
         src = [ast.unparse(s) for s in body]
-        i_read = next((i for i, t in enumerate(src) if 'handling = self._currently_handling' in t), -1)
+        # the local that receives self._currently_handling may have any name
+        i_read = next((i for i, st in enumerate(body) if any(isinstance(n, ast.Attribute) and ast.unparse(n) == 'self._currently_handling'
+                                                             and isinstance(n.ctx, ast.Load) for n in ast.walk(st))), -1)
         i_app = next((i for i, t in enumerate(src) if 'self._queue.append(' in t), -1)
         i_red = next((i for i, t in enumerate(src) if 'reduce_time_left(0)' in t), -1)
         add_ob(res, 'fire.read_append_wakeup_in_one_critical_section', min(i_read, i_app, i_red) >= 0, 'ast',
@@ -469,7 +471,8 @@ def guarded_by(res, opts):
     emod = contract.ModInfo('circuits/core/events.py')
     rt, _ = emod.find('generate_events.reduce_time_left')
     blocks = _with_lock_blocks(rt, 'self._lock')
-    whole = len(blocks) == 1 and len([s for s in rt.body if not (isinstance(s, ast.Expr) and isinstance(s.value, ast.Constant))]) == 1
+    effective = [s for s in rt.body if not (isinstance(s, ast.Expr) and isinstance(s.value, ast.Constant)) and not isinstance(s, ast.Pass)]
+    whole = len(blocks) == 1 and len(effective) == 1 and effective[0] is blocks[0]
     add_ob(res, 'reduce_time_left.entirely_under_the_lock', whole, 'ast', detail='the whole body of reduce_time_left is one `with self._lock:` block')
 
 
